@@ -20,6 +20,8 @@
 //! stored><a stopped job in env.jobs>`, sets up the suspended-jobs guard of `exit` (absent = 0000).
 //! `id <v|V|t> <aliases name=replacement (hex) or .> <the six tokens of a search case>` — `command -v`, `command -V`
 //! and `type` (module `identify_family`): `Identify::execute` / `type::main` on an Env built from the case.
+//! `rel <initial $?> <line codes>` — the read-eval loop entered with a preset `$?` on scripts of comment-only, blank and
+//! command lines, with `eval` / `.` bodies of the same kind (module `rel_family`; /repo 4afb140).
 //! `dv <a> <b>` — `Ord for Divert`: `cmp=<lt|eq|gt> max=<a.max(b)>`; oracle: `max` is one of the two and not
 //! smaller than either.
 
@@ -29,7 +31,11 @@ use yverif::rng::Rng;
 
 /// one case of either family
 fn run_one(case: &str) {
-    if case.starts_with("id ") {
+    if case.starts_with("rel ") {
+        let obs = yverif::proto::guarded(|| rel_family::run(case));
+        let oracle = rel_family::oracle(case, &obs);
+        emit(case, &obs, &oracle);
+    } else if case.starts_with("id ") {
         let obs = yverif::proto::guarded(|| identify_family::run(case));
         let oracle = identify_family::oracle(case, &obs);
         emit(case, &obs, &oracle);
@@ -76,6 +82,16 @@ fn main() {
         }
         run_one(&case);
     }
+    // the read-eval loop's `executed` flag: scripts with comment-only / blank lines, eval and dot bodies
+    let nr = if o.thorough() { 20_000 } else { 1_000 };
+    let mut rrng = Rng::new(o.seed ^ 0x4EAD);
+    for k in 0..nr {
+        let case = rel_family::generate(&mut rrng);
+        if k % o.shard.1 != o.shard.0 {
+            continue;
+        }
+        run_one(&case);
+    }
     // `command -v` / `command -V` / `type` over the environments of the search family
     let ni = if o.thorough() { 40_000 } else { 2_000 };
     let mut irng = Rng::new(o.seed ^ 0x1DE7);
@@ -111,7 +127,10 @@ fn main() {
             counter: 0,
             budget: if o.thorough() { 30 } else { 22 },
             max_depth: if o.thorough() { 3 + (k % 4) as u32 } else { 2 + (k % 3) as u32 },
-            errors: false,
+            // one program in five also draws from the shell-error commands (expansion, assignment, redirection
+            // and syntax errors, special built-in errors, read-only loop variable): the anchors' `error.handle`
+            // paths are then run — and compared — by c02's own quick tier, not only by c10
+            errors: k % 5 == 4,
             sig: false,
             defined: vec![],
         };
@@ -312,7 +331,28 @@ mod builtin_family {
                 std::cmp::Ordering::Equal => "eq",
                 std::cmp::Ordering::Greater => "gt",
             };
-            return format!("cmp={c} max={}", show_divert(a.max(b)));
+            // `Divert::exit_status`, and `builtin::Result::max` (exit status 1 + a, against exit status 2 without a
+            // divert, in both orders, and against exit status 0 + b)
+            use yash_env::builtin::Result as BResult;
+            let show_r = |r: BResult| {
+                let dv = match r.divert() {
+                    Continue(()) => "C".to_string(),
+                    Break(d) => show_divert(d),
+                };
+                format!("{}:{dv}", r.exit_status().0)
+            };
+            let ra = BResult::with_exit_status_and_divert(ExitStatus(1), Break(a));
+            let rb = BResult::with_exit_status_and_divert(ExitStatus(0), Break(b));
+            let plain = BResult::new(ExitStatus(2));
+            return format!(
+                "cmp={c} max={} es={}/{} rm={}/{}/{}",
+                show_divert(a.max(b)),
+                show_opt(a.exit_status()),
+                show_opt(b.exit_status()),
+                show_r(ra.max(plain)),
+                show_r(plain.max(ra)),
+                show_r(ra.max(rb))
+            );
         }
         let Some((c, portable, status)) = parse_bi(&toks[1..]) else { return "bad-case".into() };
         let mut env = Env::new_virtual();
@@ -362,6 +402,33 @@ mod builtin_family {
             Some(b) if b.is_special => "1",
             Some(_) => "0",
         };
+        // the frame API the executor uses (`Env::push_frame`/`pop_frame`, guard drop) and `Stack::push`/`pop`: a pushed
+        // `Loop` is one more visible loop exactly when the old top retained the context, and popping restores the stack
+        {
+            let depth = env.stack.len();
+            let all = env.stack.loop_count(usize::MAX);
+            let visible_top = c.stack.iter().take_while(|ch| matches!(ch, 'L' | 'C' | 'B' | 'b')).count() == c.stack.len()
+                || c.stack.iter().take_while(|ch| matches!(ch, 'L' | 'C' | 'B' | 'b')).count() > 0
+                || c.stack.is_empty();
+            let _ = visible_top;
+            let guard = env.push_frame(Frame::Loop);
+            let inside = guard.stack.loop_count(usize::MAX);
+            let popped = Env::pop_frame(guard);
+            let g2 = env.stack.push(Frame::Condition);
+            let inside2 = g2.loop_count(usize::MAX);
+            let popped2 = Stack::pop(g2);
+            {
+                let _g3 = env.push_frame(Frame::Subshell);
+            }
+            {
+                let _g4 = env.stack.push(Frame::Subshell);
+            }
+            if inside != all + 1 || inside2 != all || popped != Frame::Loop || popped2 != Frame::Condition
+                || env.stack.len() != depth || env.stack.loop_count(usize::MAX) != all
+            {
+                return format!("FRAME-API-BROKEN({inside},{inside2},{all},{})", env.stack.len());
+            }
+        }
         let before = env.stack.len();
         let result = match c.which.as_str() {
             "break" => yash_builtin::r#break::main(&mut env, fields).now_or_never(),
@@ -703,5 +770,102 @@ mod identify_family {
             return "FAIL:exit status is neither 0 nor 1".into();
         }
         "ok".into()
+    }
+}
+
+/// `read_eval_loop_impl` (yash-semantics/src/runner.rs) and its `executed` flag: a line without commands does not count,
+/// a loop that executed nothing ends with `$?` = 0 — for the main script (entered with a preset `$?`), `eval` and `.`.
+mod rel_family {
+    use yash_env::semantics::ExitStatus;
+    use yverif::rng::Rng;
+    use yverif::shell::{Config, run_with, write_file};
+
+    pub fn generate(rng: &mut Rng) -> String {
+        let init = [0u64, 0, 1, 3, 7, 127][(rng.next() % 6) as usize];
+        let n = rng.next() % 7;
+        let mut codes = String::new();
+        for _ in 0..n {
+            let c = match rng.next() % 14 {
+                0..=2 => 'c',
+                3..=4 => 'b',
+                5 => 'p',
+                6 => 'e',
+                7 => 'E',
+                8 => 'g',
+                9 => 'd',
+                10 => 'D',
+                11 => '0',
+                12 => '4',
+                _ => '9',
+            };
+            codes.push(c);
+        }
+        if codes.is_empty() {
+            codes.push('.');
+        }
+        format!("rel {init} {codes}")
+    }
+
+    fn parse(case: &str) -> Option<(i32, Vec<char>)> {
+        let t: Vec<&str> = case.split(' ').collect();
+        let [_, init, codes] = t[..] else { return None };
+        let codes = if codes == "." { vec![] } else { codes.chars().collect() };
+        Some((init.parse().ok()?, codes))
+    }
+
+    pub fn run(case: &str) -> String {
+        let Some((init, codes)) = parse(case) else { return "bad-case".into() };
+        let mut src = String::new();
+        for (i, c) in codes.iter().enumerate() {
+            let line = match c {
+                'c' => if i % 2 == 0 { "# a comment".to_string() } else { "   \t # another one".to_string() },
+                'b' => if i % 2 == 0 { String::new() } else { "  \t ".to_string() },
+                'p' => "probe 1".to_string(),
+                'e' => "eval '# only a comment'".to_string(),
+                'E' => "eval ''".to_string(),
+                'g' => "eval 'st 6'".to_string(),
+                'd' => ". /dot_c".to_string(),
+                'D' => ". /dot_s".to_string(),
+                d if d.is_ascii_digit() => format!("st {d}"),
+                _ => return "bad-case".into(),
+            };
+            src.push_str(&line);
+            src.push('\n');
+        }
+        let mut cfg = Config::new(&src);
+        cfg.max_rounds = 20_000;
+        let (o, _) = run_with(
+            cfg,
+            move |env, state| {
+                write_file(state, "/dot_c", b"# nothing here\n\n   # still nothing\n");
+                write_file(state, "/dot_s", b"# first\nst 7\n# trailing comment\n\n");
+                env.exit_status = ExitStatus(init);
+            },
+            |_env, _| (),
+        );
+        if o.stuck {
+            return "TIMEOUT".into();
+        }
+        // probe prints `<$?>:<hex field>` per line
+        let trace: Vec<String> =
+            o.stdout_str().lines().filter_map(|l| l.split_once(':').map(|x| format!("1:{}", x.0))).collect();
+        format!("trace={} st={}", trace.join(","), o.exit_status)
+    }
+
+    /// POSIX (dot, eval): "if no command is executed, the exit status shall be zero"; comment-only and blank lines
+    /// after the last command keep its status
+    pub fn oracle(case: &str, obs: &str) -> String {
+        let Some((_, codes)) = parse(case) else { return "-".into() };
+        let Some(st) = obs.rsplit_once("st=").map(|x| x.1.to_string()) else { return "-".into() };
+        let last = codes.iter().rev().find(|c| !matches!(c, 'c' | 'b'));
+        let want = match last {
+            None => 0,
+            Some('p') => return "ok".into(), // probe keeps whatever `$?` was: decided by the model
+            Some('e') | Some('E') | Some('d') => 0,
+            Some('g') => 6,
+            Some('D') => 7,
+            Some(d) => d.to_digit(10).unwrap_or(0) as i32,
+        };
+        if st != want.to_string() { format!("FAIL:final status {st}, POSIX says {want}") } else { "ok".into() }
     }
 }
